@@ -403,8 +403,13 @@ class Ledger(metaclass=LedgerRegistry):
                 # Nothing to do, network thinks we're already at the latest height.
                 return
 
+            replaces_stored_headers = height < len(self.headers)
             added = await self.headers.connect(height, unhexlify(headers))
             if added > 0:
+                if replaces_stored_headers:
+                    # e.g. a competing block for the current tip: it connects without any rewinding, but
+                    # transactions cached as verified at the replaced heights belong to the old blocks
+                    self._tx_cache.clear()
                 height += added
                 self._on_header_controller.add(
                     BlockHeightEvent(self.headers.height, added))
